@@ -389,9 +389,11 @@ theorem loads_iff (c : Ctx) (n : Now) :
     cases hs : c.stClear <;> cases he : n.enabled c.hier <;> simp [h1, h2, h3]
 
 /-- the positive side: a loadable context stays loadable through every event that is not a Reset, does not replace its
-    hierarchy's proof, does not disable its hierarchy, and — for an stClear object — is not a Restart -/
+    hierarchy's proof, does not disable its hierarchy, and — for an stClear object — is not a Restart (nor a TPM2_Clear
+    that changes the restart count, which TPM2_Clear sets to 0) -/
 theorem survives (c : Ctx) (n : Now) (e : Event) (hl : load c n = .ok) (hr : replaces e c.hier = false) (hreset : e ≠ .reset)
-    (hst : e = .restart → c.stClear = false) (hdis : e ≠ .control c.hier false) : load c (step n e) = .ok := by
+    (hst : e = .restart → c.stClear = false) (hclr : e = .clear → c.stClear = true → c.clear = 0)
+    (hdis : e ≠ .control c.hier false) : load c (step n e) = .ok := by
   obtain ⟨h1, h2, h3, h4⟩ := (loads_iff c n).mp hl
   apply (loads_iff c (step n e)).mpr
   cases e with
@@ -399,8 +401,9 @@ theorem survives (c : Ctx) (n : Now) (e : Event) (hl : load c n = .ok) (hr : rep
   | restart => exact ⟨h1, h2, fun hs => by simp [hst rfl] at hs, by simp [step]⟩
   | reset => exact absurd rfl hreset
   | clear =>
+    have h3' : c.stClear = true → c.clear = 0 := hclr rfl
     cases hh : c.hier <;> simp [replaces, hh] at hr
-    all_goals (refine ⟨h1, ?_, h3, ?_⟩ <;> simp [step, bump, setEn, hh] <;> simp [hh] at h2 h4 <;> assumption)
+    all_goals (refine ⟨h1, ?_, ?_, ?_⟩ <;> simp [step, bump, setEn, hh] <;> simp [hh] at h2 h4 <;> first | assumption | exact h3')
   | changeEPS =>
     cases hh : c.hier <;> simp [replaces, hh] at hr
     all_goals (refine ⟨h1, ?_, h3, ?_⟩ <;> simp [step, bump, setEn, hh] <;> simp [hh] at h2 h4 <;> assumption)
@@ -416,6 +419,12 @@ theorem survives (c : Ctx) (n : Now) (e : Event) (hl : load c n = .ok) (hr : rep
       | true => simp
       | false => exact absurd rfl hdis
     · simp [hx, h4]
+
+/-- as coded (same in the TCG reference code): TPM2_Clear puts the restart count back to 0, so the context of an stClear
+    object of the platform or null hierarchy saved before any Restart is refused after a Restart and accepted again after
+    a later TPM2_Clear — recorded as an observation; the property speaks of Reset, cleared and disabled hierarchies -/
+example : load (save {} .null true) (step {} .restart) = .integrity ∧
+          load (save {} .null true) (step (step {} .restart) .clear) = .ok := by decide
 
 end TpmVerif.Props.C11.ObjCtx
 
